@@ -52,6 +52,7 @@ type Clause struct {
 	Params  []WParam
 	RetType string
 	Unproved string // reason; clause is stated but not claimed
+	Props    []string // clause-level property tags ([label @C16,C01]); empty: the function's props
 }
 
 type AssignItem struct {
@@ -61,7 +62,14 @@ type AssignItem struct {
 	Text  string
 }
 
+type SplitHint struct {
+	Label string
+	Base  *Clause // int expression evaluated at the back edge
+	Count int
+}
+
 type LoopSpec struct {
+	Splits     []*SplitHint
 	Invariants []*Clause
 	Assigns    []*AssignItem
 	HasAssigns bool
@@ -162,6 +170,10 @@ func ParseContractFile(path, pkgPath string, cs *ContractSet) {
 			if strings.HasPrefix(s, "[") {
 				if j := strings.Index(s, "]"); j > 0 {
 					c.Label = s[1:j]
+					if k := strings.Index(c.Label, "@"); k >= 0 {
+						c.Props = strings.Fields(strings.ReplaceAll(c.Label[k+1:], ",", " "))
+						c.Label = strings.TrimSpace(c.Label[:k])
+					}
 					s = strings.TrimSpace(s[j+1:])
 				}
 			}
@@ -262,6 +274,24 @@ func ParseContractFile(path, pkgPath string, cs *ContractSet) {
 					ls.Invariants = append(ls.Invariants, mkClause("invariant", arg))
 				case "decreases":
 					ls.Decreases = mkClause("decreases", arg)
+				case "split":
+					// split [label] <count> <base expression>
+					a := strings.TrimSpace(arg)
+					lab := ""
+					if strings.HasPrefix(a, "[") {
+						if j := strings.Index(a, "]"); j > 0 {
+							lab = a[1:j]
+							a = strings.TrimSpace(a[j+1:])
+						}
+					}
+					fs2 := strings.SplitN(a, " ", 2)
+					cnt, err := strconv.Atoi(fs2[0])
+					if err != nil || len(fs2) != 2 {
+						addErr(ln, "split needs: [label] <count> <base expression>")
+						continue
+					}
+					ls.Splits = append(ls.Splits, &SplitHint{Label: lab, Count: cnt, Base: &Clause{Kind: "expr", Label: "split-" + lab, Text: fs2[1], Line: ln, File: path}})
+					lastClause = ls.Splits[len(ls.Splits)-1].Base
 				case "unroll":
 					ls.Unroll, _ = strconv.Atoi(strings.TrimSpace(arg))
 				case "assigns":
@@ -1079,6 +1109,9 @@ func GenerateWrappers(pkg *packages.Package, cs *ContractSet) (string, []string)
 			}
 			if ls.Decreases != nil {
 				g.compileClause(c, ls.Decreases, si, lpos, "loop", "int")
+			}
+			for _, sp := range ls.Splits {
+				g.compileClause(c, sp.Base, si, lpos, "loop", "int")
 			}
 			for _, a := range ls.Assigns {
 				g.compileAssign(c, a, si, lpos, "loop")
